@@ -166,6 +166,17 @@ def _check(tree):
         got = S._body(P.find_function(tree, "Date." + nm))
         if got != [s.format(pre) for s in NAV_DISPATCH]:
             raise P.Unsupported(f"Date.{nm} is not the recognised getattr dispatch: {got}")
+    for nm in ("start_of", "end_of"):
+        got = S._body(P.find_function(tree, "Date." + nm))
+        if got != [s.format(nm) for s in S.DISPATCH_BODY]:
+            raise P.Unsupported(f"Date.{nm} is not the recognised getattr dispatch: {got}")
+    dcls = next(n for n in tree.body if isinstance(n, ast.ClassDef) and n.name == "Date")
+    units = None
+    for s in dcls.body:
+        if isinstance(s, (ast.Assign, ast.AnnAssign)) and ast.unparse(s.targets[0] if isinstance(s, ast.Assign) else s.target) == "_MODIFIERS_VALID_UNITS":
+            units = ast.literal_eval(s.value)
+    if units != ["day", "week", "month", "year", "decade", "century"]:
+        raise P.Unsupported(f"Date._MODIFIERS_VALID_UNITS changed: {units}")
     for nm, want in (("day_of_week", ["return WeekDay(self.weekday())"]), ("days_in_month", ["return calendar.monthrange(self.year, self.month)[1]"]),
                      ("quarter", ["return math.ceil(self.month / 3)"])):
         got = S._body(P.find_function(tree, "Date." + nm))
